@@ -129,6 +129,31 @@ PRE = {}
 EXPLAIN = {"wf": explain_wf}
 
 
+# ---------------------------------------------------------------------------------------------------------------------
+# the real TEXT layer of both writers (escaping, line ends, characters outside XML 1.0) - harness/textpath.py write_check
+from harness import textpath  # noqa: E402
+from harness.common import concretize, known, untraced  # noqa: E402
+
+_TP_PROP = "C03"
+_KNOWN_NONXML = known("C03-native-writer-nonxml-chars")
+
+
+def real_text(c0: int, c1: int, place: int) -> bool:
+    """
+    pre: 0 <= c0 < len(textpath.CPS)
+    pre: 0 <= c1 <= len(textpath.CPS)
+    pre: place == PART.get("place", 0)
+    post: _
+    """
+    k0, k1, kp = concretize(c0, len(textpath.CPS)), concretize(c1, len(textpath.CPS) + 1), PART.get("place", 0)
+    with untraced():
+        return result(textpath.write_check(_TP_PROP, textpath.PLACES[kp], k0, k1, _KNOWN_NONXML)["ok"])
+
+
+def explain_real_text(c0, c1, place):
+    return textpath.write_check(_TP_PROP, textpath.PLACES[place], c0, c1, _KNOWN_NONXML)
+
+
 def plan(tier):
     jobs = []
     names = list(c01._QUICK_SPECS)
@@ -149,4 +174,19 @@ def plan(tier):
             for ns in range(len(NS_MAPS)):
                 for ida in (0, 1):
                     jobs.append(Job("wf", {"spec": name, "ns": ns, "ida": ida, "indent": ns % 2, "slen": 1 if name in ("unions_str", "compound") else 2, "imax": 1000}, 900, 40))
+    for place in range(len(textpath.PLACES)):
+        jobs.append(Job("real_text", {"place": place}, 300, 30, note="real writers / parsers on text; code points by selector"))
     return jobs
+
+EXPLAIN["real_text"] = explain_real_text
+
+
+def nonxml_witness():
+    """Known finding C03-native-writer-nonxml-chars through the public API."""
+    from harness import textpath as tp
+    from harness.models import Basic
+
+    try:
+        return tp.well_formed(tp.render(Basic(i=1, s="a\x0bb"), "native").encode())
+    except Exception:  # noqa: BLE001
+        return True
